@@ -40,7 +40,10 @@ def run(ctx):
             text.append(secretlib.build(tpl, textgen.make_secret(rng, cls)))
         cases.append(textgen.pipe(text, flags="pa", salt=rng.choice(ipgen.SALTS + ["#site-salt", "_x", "é1", "%"]), words=rng.choice([["sea", "seattle", "seattle-core"], ["kayak", "kay", "k"], None]),
                                   asnums=rng.choice([["65001", "650010"], None]), reserved=rng.choice([None, ["Seattle-core"]]), nets=rng.choice(["-", "P"])))
-    m, i0 = ctx.correspond(cases, project=lambda c, o: textgen.norm(o), label="seed0")
+    def project(c, o):
+        """does the run complete (the byte-level comparison that decides C13 is implementation vs implementation across processes, seeds and earlier anonymizers; exact agreement with the model is reported as raw drift)"""
+        return "RAISED" if o.startswith("RAISED") else "completed"
+    m, i0 = ctx.correspond(cases, project=project, label="seed0")
     seeds = [1, 2] if q else [1, 2, 3, 4, 5, 6, 7]
     nt = sum(1 for c, o in zip(cases, i0) if "".join(c[11:]) != "".join(textgen.outlines(o)))
     for hs in seeds + [0]:
